@@ -880,7 +880,12 @@ def main(tier: str, seed: int) -> int:
             else:
                 skipped += 1
             if ver.get("design") == "bad":
-                v.notes.append(f"drift (design layer): {act} formula of the transformed eta differs from the transcription")
+                what = {"rmiiv": "the parameter after remove_iiv is not the parameter before with its etas at zero",
+                        "rmiov": "the variables after remove_iov are not the variables before with the IOV etas at zero",
+                        "transform": "the transformed eta differs from the transcribed series"}.get(act["k"], "design-layer expectation differs")
+                note = f"drift (design layer, not judged): {act['k']}({act['p']}{act['x']}) on {c['model']}: {what}"
+                if note not in v.notes:
+                    v.notes.append(note)
             for field in ("formula", "neutral", "frame", "undo"):
                 if ver[field] == "bad":
                     ev = traces[tid - 1]["events"][i]
